@@ -103,6 +103,98 @@ theorem to_path_is_walk_partial (g : Graph) (src tgt : Nat) (skip : Bool) (d : D
         · simp only [h3]
           exact walk_chain g p hok g.maxSteps tgt _ tgt 0 [] path [] rfl rfl rfl hw
 
+/-- in every mode the predecessors handed to `to` are rooted: a predecessor token is the source or
+has a predecessor itself. -/
+theorem best_swap_paths_rooted (g : Graph) (src : Nat) (skip : Bool) (d : Dist) (p : Pred)
+    (a : Option Bool) (h : bestSwapPaths g src skip = .ok (d, p, a)) : PredRooted src p := by
+  have hdfs : ∀ r, dfs g src = .ok r → PredRooted src r.2 := by
+    intro r hr
+    unfold dfs at hr
+    split at hr
+    · cases hr
+    · cases hr
+      exact (dfsRec_rooted g src _ src (some 0) none 0 [] (fun _ => none, fun _ => none)
+        (fun v u m hh => by cases hh) (fun _ => ⟨rfl, rfl⟩) (fun u m hh => by cases hh)).1
+  unfold bestSwapPaths at h
+  cases skip with
+  | true =>
+    simp only [if_true] at h
+    split at h
+    · rename_i r hr; cases h; exact hdfs r hr
+    · cases h
+  | false =>
+    simp only [Bool.false_eq_true, if_false] at h
+    split at h
+    · rename_i r hr
+      cases h
+      rw [(bellmanFord_ok hr).2.2.2]
+      exact (bfFinal_tight g src).1
+    · split at h
+      · rename_i r hr; cases h; exact hdfs r hr
+      · cases h
+    · cases h
+
+/-- Validity, in EVERY mode (Bellman–Ford, DFS, DFS fallback): a recommended path is the market
+list of a walk of consecutive estimated edges that STARTS AT THE SOURCE and ends at the target. -/
+theorem to_path_starts_at_source (g : Graph) (src tgt : Nat) (skip : Bool) (d : Dist) (p : Pred)
+    (a : Option Bool) (h : bestSwapPaths g src skip = .ok (d, p, a))
+    (hne : (toPath g src tgt d p).2 ≠ []) :
+    ∃ es : List Edge, es.map (·.market) = (toPath g src tgt d p).2 ∧
+      isWalk g src es = true ∧ walkEnd src es = tgt := by
+  have hok := best_swap_paths_predOk g src skip d p a h
+  have hJ := best_swap_paths_rooted g src skip d p a h
+  unfold toPath at hne ⊢
+  by_cases h1 : tgt ≥ g.n
+  · simp [h1] at hne
+  · by_cases h2 : src = tgt
+    · simp [h1, h2] at hne
+    · simp only [h1, h2, if_false] at hne ⊢
+      cases hw : walk p g.maxSteps (g.maxSteps + 2) (p tgt) 0 [] with
+      | none => simp [hw] at hne
+      | some path =>
+        simp only [hw] at hne ⊢
+        by_cases h3 : path.isEmpty
+        · simp [h3] at hne
+        · simp only [h3]
+          obtain ⟨x, es, hm, hwk, hend, hx⟩ :=
+            walk_chain_rooted g src p hok hJ g.maxSteps tgt _ tgt 0 [] path [] rfl rfl rfl
+              (Or.inl rfl) hw
+          have hes : es ≠ [] := by
+            intro he; subst he
+            simp at hm
+            subst hm; simp at h3
+          rcases hx with hx | hx
+          · exact absurd hx hes
+          · subst hx
+            exact ⟨es, hm, hwk, hend⟩
+
+/-- No repeated market, in EVERY mode: `to` only returns a path when its predecessor walk
+terminates, a terminating walk visits no token twice, and the two edges of a market join the same
+pair of tokens (`MarketsWF`, true of every graph `insert_market` builds) — so no market occurs twice
+in a recommended path. -/
+theorem to_path_no_repeated_market (g : Graph) (hm : MarketsWF g) (src tgt : Nat) (skip : Bool)
+    (d : Dist) (p : Pred) (a : Option Bool) (h : bestSwapPaths g src skip = .ok (d, p, a)) :
+    (toPath g src tgt d p).2.Nodup := by
+  have hok := best_swap_paths_predOk g src skip d p a h
+  unfold toPath
+  by_cases h1 : tgt ≥ g.n
+  · simp [h1]
+  · by_cases h2 : src = tgt
+    · simp [h1, h2]
+    · simp only [h1, h2, if_false]
+      cases hw : walk p g.maxSteps (g.maxSteps + 2) (p tgt) 0 [] with
+      | none => simp
+      | some path =>
+        simp only []
+        by_cases h3 : path.isEmpty
+        · simp [h3]
+        · simp only [h3]
+          obtain ⟨x, es, hmp, _, hl, hx, hin⟩ :=
+            walk_chain_linked g p hok g.maxSteps tgt _ tgt 0 [] path [] rfl rfl trivial
+              (fun e he => by cases he) hw
+          rw [← hmp]
+          exact linked_markets_nodup g hm p es x 0 hin hl (Term.zero hx)
+
 /-- `k` in-place rounds from the source: the distance of every node is at most the cost of ANY
 walk of at most `k` edges from the source to it (and such a node does have a distance). -/
 theorem bf_dist_le_best_k (g : Graph) (hwf : ∀ e ∈ g.edges, e.src < g.n) (src k : Nat)
@@ -314,5 +406,7 @@ example : report (gBF 3) 7 false 3 = none := by decide
 example : (match bestSwapPaths ⟨2, [⟨0, 1, 10, some (-300)⟩, ⟨1, 0, 10, some 200⟩], 5⟩ 0 false with
     | .ok (_, _, a) => a | .error _ => none) = some true := by decide
 example : isWalk (gBF 3) 0 [⟨0, 2, 11, some 100⟩, ⟨2, 1, 12, some 100⟩] = true := by decide
+-- the witness graph is market-well-formed
+example : MarketsWF (gBF 3) := by unfold MarketsWF; decide
 
 end Gmx.C42
